@@ -5,5 +5,6 @@ CONSTANTS
   MaxOps = 5
   ThresholdChecked = TRUE
   ProbeRefusals = FALSE
+  MinOps = 0
 INVARIANTS SignedLoads
 CHECK_DEADLOCK FALSE
